@@ -458,6 +458,9 @@ var alphabet = []rune{
 	'|', '&', '^', '!', '<', '>', '+', '-', '*', '/', '%',
 	'_', '1', '0', 'f', 'x', 'u', 'e', 'n', 'o', 'i',
 	'"', '\'', '\\', ' ', '\t', '\r', '\n', 'é', '𝄞',
+	// runes above U+00FF whose low byte is an ASCII letter, digit, '_', 'f' or 'x' (a classifier that looks at
+	// one byte of the rune would take them for one)
+	'\u0141', '\u0430', '\u015f', '\u0166',
 }
 
 func TestTableExhaustive(t *testing.T) {
